@@ -9,7 +9,7 @@ import sys
 
 VERIF = os.path.dirname(os.path.dirname(os.path.abspath(__file__)))
 pid, k, checks = sys.argv[1], sys.argv[2], sys.argv[3:]
-src = "/tmp/seeded_out/%s" % pid
+src = "%s/%s" % (os.environ.get("SEEDBASE", "/tmp/seeded_out"), pid)
 r = subprocess.run([os.path.join(VERIF, "tools/seedeval.py"), src, *checks, "--patch", "patch%s.diff" % k, "--demo", "demo%s.py" % k, "--tests"],
                    capture_output=True, text=True)
 res = json.loads(r.stdout[r.stdout.index("{"):])
@@ -19,7 +19,7 @@ try:
 except Exception:
     pass
 ok = res.get("demo_clean_exit") == 0 and res.get("demo_patched_exit") not in (0, None) and "passed" in res.get("tests", "") and "failed" not in res.get("tests", "")
-dst = os.path.join(VERIF, "seeded", "%s-%s" % (pid, k))
+dst = os.path.join(VERIF, "seeded", "%s-%s%s" % (pid, os.environ.get("SEEDTAG", ""), k))
 if not ok:
     print("NOT KEPT", pid, k, json.dumps({x: res.get(x) for x in ("demo_clean_exit", "demo_patched_exit", "tests", "apply_error")}))
     sys.exit(1)
